@@ -360,6 +360,11 @@ impl Calendar {
         match Calendar::JULIAN.get_jdn(post_reform.year(), ordinal) {
             Ok(date) if date <= reformation => return Err(ReformingError::InvalidReformation),
             Ok(_) => (),
+            // Underflow: the Julian date lies before the earliest day number
+            // and thus before `reformation`.
+            Err(ArithmeticError) if post_reform.year < 0 => {
+                return Err(ReformingError::InvalidReformation)
+            }
             Err(ArithmeticError) => return Err(ReformingError::Arithmetic),
         };
         let kind = inner::GapKind::for_dates(
